@@ -241,7 +241,7 @@ theorem flGet_flDelete_ne (c : Client) (id k : Nat) (h : id ≠ k) : flGet (flDe
       | true => rfl
       | false => exact ih
 
-theorem flGet_flSet_self (c : Client) (m : Msg) : flGet (flSet c m).1 m.id = some m := by
+theorem flGet_flSet_self_sv (c : Client) (m : Msg) : flGet (flSet c m).1 m.id = some m := by
   unfold flSet
   split
   · rename_i h
@@ -339,7 +339,7 @@ theorem RK.flDelete_ne' (k : Nat) (c : Client) (id : Nat) (h : id ≠ k) : RK k 
 /-- rewriting the record under `m.id` keeps exchange `k` if `m` is itself a record of the exchange (PUBREC → PUBREL) -/
 theorem RK.flSet_ok' (k : Nat) (c : Client) (m : Msg) (h : m.id = k → ∀ p, recOk m p = true) : RK k c (flSet c m).1 := by
   by_cases hk : m.id = k
-  · refine ⟨fun p _ => ⟨m, by rw [← hk]; exact flGet_flSet_self c m, h hk p⟩, ?_, ?_, ?_, ?_⟩
+  · refine ⟨fun p _ => ⟨m, by rw [← hk]; exact flGet_flSet_self_sv c m, h hk p⟩, ?_, ?_, ?_, ?_⟩
     all_goals (unfold Mochi.Broker.flSet; split <;> rfl)
   · exact RK.flSet_ne' k c m hk
 
